@@ -143,6 +143,24 @@ func TestReplay_CLIWiring(t *testing.T) {
 			t.Fatalf("REPLAY-FAIL %s input: %v with the document on stdin: err=%v, printed %q, the library prints %q", c.obl, c.args, err, out, want.String())
 		}
 	}
+	// -f FILE: the file is read, not stdin
+	{
+		fdir := t.TempDir()
+		fpath := filepath.Join(fdir, "in.md")
+		os.WriteFile(fpath, []byte(doc), 0o644)
+		var want bytes.Buffer
+		gtree.OutputFromMarkdown(&want, strings.NewReader(doc))
+		if out, err := replayRun(t, "- other\n", "output", "-f", fpath); err != nil || out != want.String() {
+			t.Fatalf("REPLAY-FAIL main.actionOutput/post#reader input: output -f FILE with another document on stdin: err=%v, printed %q, the file's tree is %q", err, out, want.String())
+		}
+		mdir := t.TempDir()
+		if _, err := replayRun(t, "- other\n", "mkdir", "-f", fpath, "--target-dir", mdir); err != nil || len(replayTree(mdir)) == 0 || replayTree(mdir)[0] != "a/" {
+			t.Fatalf("REPLAY-FAIL main.actionMkdir/post#reader input: mkdir -f FILE with another document on stdin: err=%v, created %v (the file's root is a)", err, replayTree(mdir))
+		}
+		if _, err := replayRun(t, "- other\n", "verify", "-f", fpath, "--target-dir", mdir); err != nil {
+			t.Fatalf("REPLAY-FAIL main.actionVerify/post#reader input: verify -f FILE (its tree was just created) with another document on stdin: %v", err)
+		}
+	}
 	if _, err := replayRun(t, doc, "output", "--format", "xml"); err == nil {
 		t.Fatalf("REPLAY-FAIL main.optionOutput/post#unknown input: output --format xml: returned nil")
 	}
